@@ -52,8 +52,21 @@ def normalise(tree: ast.Module) -> None:
 
 
 def normalise_program(trees: Dict[str, ast.Module], pkgs: Set[str]) -> None:
+    from . import normalize_ho as ho
     for t in trees.values():
         _iso(t)
+    ho.fold_private_constants(trees, pkgs)
+    for m, t in trees.items():
+        if not (".tests" in m or m.endswith("tests")):
+            ho.format_calls(t)
+            ho.function_values(t)
+            ho.genexp_for_loops(t)
+            ho.for_break_else(t)
+            ho.first_match_loops(t)
+            ho.dict_dispatch_calls(t)
+            ho.unroll_constant_loops(t)
+            ho.constant_getattr(t)
+    ho.straight_generators(trees)
     for m, t in trees.items():
         if not (".tests" in m or m.endswith("tests")):
             _objects_to_closures(t)
@@ -66,22 +79,36 @@ def normalise_program(trees: Dict[str, ast.Module], pkgs: Set[str]) -> None:
             _unroll_table_loops(t)
             _departialize(t)
     inlined = False
-    for _ in range(4):  # helpers calling helpers
-        helpers = {m: _collect_helpers(t) for m, t in trees.items()}
-        changed = False
-        for m, t in trees.items():
-            if ".tests" in m or m.endswith("tests"):
-                continue
-            changed |= _inline_helpers(m, t, helpers, trees, pkgs)
-        if not changed:
-            break
-        inlined = True
+    for stage in range(2):
+        for _ in range(4):  # helpers calling helpers
+            helpers = {m: _collect_helpers(t, m) for m, t in trees.items()}
+            changed = False
+            for m, t in trees.items():
+                if ".tests" in m or m.endswith("tests"):
+                    continue
+                changed |= _inline_helpers(m, t, helpers, trees, pkgs)
+            if not changed:
+                break
+            inlined = True
+            _drop_dead_helpers(trees)  # a helper whose (now unused) nested closure is gone may itself be inlined in the next round
+        if stage == 0:
+            # a function chosen in an if-chain and called afterwards: the call is pushed into the branches (and the chosen helpers inlined there)
+            for m, t in trees.items():
+                if not (".tests" in m or m.endswith("tests")):
+                    ho.first_match_loops(t)
+                    ho.select_then_call(t)
     for t in trees.values():
         if inlined:
             _fold_constant_ifs(t)  # a flag parameter bound to True/False at the call site
     if inlined:
         _drop_dead_helpers(trees)
     _inline_private_tables(trees)
+    for m, t in trees.items():
+        if not (".tests" in m or m.endswith("tests")):
+            ho.loop_target_unpack(t)
+            ho.unroll_constant_loops(t)
+            ho.constant_getattr(t)
+            ho.splice_starred_displays(t)
     for t in trees.values():
         _strip_casts(t)
         _try_keyerror(t)
@@ -1573,7 +1600,6 @@ class _Helper:
         self.cls = cls
         self.module = module
         self.owner = owner  # enclosing function of a nested helper
-        self.body = _doc_stripped(node.body)
         a = node.args
         self.params = [x.arg for x in a.posonlyargs + a.args]
         self.kwonly = [x.arg for x in a.kwonlyargs]
@@ -1585,10 +1611,22 @@ class _Helper:
             if d is not None:
                 self.defaults[arg.arg] = d
         self.is_gen = any(isinstance(n, (ast.Yield, ast.YieldFrom)) for n in _own_nodes(node))
-        self.is_expr = (not self.is_gen) and len(self.body) == 1 and isinstance(self.body[0], ast.Return) and self.body[0].value is not None
-        self.locals = _locals_of(node)
         loaded = {n.id for n in ast.walk(node) if isinstance(n, ast.Name) and isinstance(n.ctx, ast.Load)}
-        self.free = loaded - set(_params_of(node)) - self.locals - _BUILTINS
+        self.free = loaded - set(_params_of(node)) - _locals_of(node) - _BUILTINS
+
+    @property
+    def body(self) -> List[ast.stmt]:
+        # read live: the helper's own body may have had helpers inlined into it earlier in the same round
+        return _doc_stripped(self.node.body)
+
+    @property
+    def is_expr(self) -> bool:
+        b = self.body
+        return (not self.is_gen) and len(b) == 1 and isinstance(b[0], ast.Return) and b[0].value is not None
+
+    @property
+    def locals(self) -> Set[str]:
+        return _locals_of(self.node)
 
     def bind(self, call: ast.Call, receiver: Optional[ast.expr]) -> Optional[Dict[str, ast.expr]]:
         params = list(self.params)
@@ -1979,10 +2017,12 @@ def _once_convert(stmts: List[ast.stmt], sink, at: ast.AST) -> Optional[List[ast
     return [o]
 
 
-def _collect_helpers(tree: ast.Module) -> Dict[Tuple[Optional[str], str], _Helper]:
+def _collect_helpers(tree: ast.Module, modname: str = "") -> Dict[Tuple[Optional[str], str], _Helper]:
     out: Dict[Tuple[Optional[str], str], _Helper] = {}
+    # every function of a module under a `_private` package is private to the package, whatever its name (anchored ones excepted)
+    private_module = "._private" in modname or modname.endswith("_private")
     for st in tree.body:
-        if isinstance(st, ast.FunctionDef) and _eligible(st):
+        if isinstance(st, ast.FunctionDef) and _eligible(st, private_class=private_module):
             out[(None, st.name)] = _Helper(st, "func", None, "")
         if isinstance(st, ast.ClassDef):
             private_cls = st.name.startswith("_") and not st.name.startswith("__") and st.name not in anchors()
